@@ -42,11 +42,22 @@ TRUSTED = [
 ]
 ASSUMPTIONS = [
     "Response and request URLs have a host; request paths are yarl's decoded .path (percent-encoded slashes are outside the generated domain).",
-    "Time is the patched integer clock; 'expired' means deadline <= now (the jar's own boundary).",
+    "Time is the patched clock, moving in ticks of 1/8 s (exact floats); 'expired' means deadline <= now (the jar's own boundary).",
     "Model/implementation agreement is validated on the generated histories only.",
 ]
 
 T0 = 1_700_000_000
+# time.time() is a float and the jar adds Max-Age to it unrounded: the virtual clock moves in ticks of 1/8 s (exact in
+# binary floating point, so the jar's float sums and comparisons are exact); model and reference count in ticks.
+TICKS = 8
+
+
+def ticks(seconds) -> int:
+    t = seconds * TICKS
+    if t != int(t):
+        raise ValueError(f"clock step {seconds} is not a multiple of 1/{TICKS} s")
+    return int(t)
+
 
 HOSTS = ["example.com", "sub.example.com", "a.sub.example.com", "other.example.com", "badexample.com", "ample.com",
          "example.com.evil.org", "com", "example.org", "example.com.", "1.2.3.4", "4.3.2.1", "x.1.2.3.4", "[::1]", "3.4"]
@@ -137,11 +148,11 @@ class RefStore:
         else:
             host_only, domain = True, host
         path = a["path"] if (a["path"] or "").startswith("/") else rfc_default_path(upath)
-        ma = rfc_max_age(a["max_age"])
+        ma = rfc_max_age(a["max_age"])          # `now` and expiry are in ticks
         if ma is not None:
-            expiry = now + ma
+            expiry = now + ma * TICKS
         elif a["expires"] is not None and a["expires"][1] is not None:
-            expiry = a["expires"][1]
+            expiry = a["expires"][1] * TICKS
         else:
             expiry = None
         c = dict(name=a["name"], value=a["value"], domain=domain, path=path, host_only=host_only,
@@ -211,7 +222,7 @@ class Gen:
             elif k < 0.26:
                 a["expires"] = ("garbage", None)
             else:
-                t = now + r.choice([-100, -5, 0, 5, 6, 10, 50, 100])
+                t = int(now) + r.choice([-100, -5, 0, 5, 6, 10, 50, 100])
                 a["expires"] = (http_date(t), t)
         return a
 
@@ -272,12 +283,12 @@ class Gen:
                          path=r.choice([None, "/foo", "/bar", "/foo/", "/foo/bar"]), secure=r.random() < 0.15,
                          max_age=r.choice([None, None, "5", "10", "0"]), expires=None)
                 if a["max_age"] is None and r.random() < 0.3:
-                    t = now + r.choice([5, 10, -5])
+                    t = int(now) + r.choice([5, 10, -5])
                     a["expires"] = (http_date(t), t)
                 ops.append(["set", [r.choice(["http", "https"]), h, r.choice(["/", "/foo/x", "/bar"])], [a]])
                 self.touch(ops, 0.35)
             elif x < 0.68:
-                dt = r.choice([1, 5, 5, 6, 10])
+                dt = r.choice([1, 5, 5, 6, 10, 0.125, 0.25, 0.5, 0.875, 4.5, 9.875])
                 now += dt
                 ops.append(["advance", dt])
             elif x < 0.80:
@@ -288,10 +299,54 @@ class Gen:
                 ops.append(["filter", [r.choice(["http", "https"]), r.choice(hosts), r.choice(["/", "/foo", "/bar", "/foo/bar"])]])
         return {"unsafe": hosts[0][0].isdigit() or r.random() < 0.1, "t0": T0, "ops": ops, "sweep": True}
 
+    def refresh(self):
+        """The same cookie is re-sent by several responses a fraction of a second (or exactly one, or a few seconds)
+        apart -- session-refresh middleware -- so its deadline moves by less than a second each time; then the clock
+        passes the last deadline by a fraction of a second, by seconds, by an hour."""
+        r = self.rng
+        self.n = 0
+        ops, now = [], T0 + r.choice([0, 0.5, 0.875])
+        if now != T0:
+            ops.append(["advance", now - T0])
+        host = r.choice(["example.com", "sub.example.com"])
+        name, path = r.choice(["a", "b"]), r.choice([None, "/foo"])
+        dom = r.choice([None, None, "example.com"])
+        keep_max_age = r.random() < 0.7
+        max_age = r.choice([1, 2, 5, 60])
+        deadline = None
+        for i in range(r.randint(2, 5)):
+            self.n += 1
+            a = dict(name=name, value=f"v{self.n}", domain=dom, path=path, secure=False, max_age=None, expires=None)
+            if keep_max_age or r.random() < 0.6:
+                a["max_age"] = str(max_age if keep_max_age else r.choice([1, 2, 5]))
+                deadline = now + int(a["max_age"])
+            else:
+                t = int(now) + r.choice([1, 2, 5])
+                a["expires"] = (http_date(t), t)
+                deadline = t
+            ops.append(["set", ["https", host, "/"], [a]])
+            if r.random() < 0.25:
+                ops.append(["filter", ["https", host, path or "/"]])
+            if r.random() < 0.15:
+                ops.append(["save_load"])
+            gap = r.choice([0.125, 0.25, 0.25, 0.5, 0.875, 0.875, 1, 1.125, 3, 0])
+            now += gap
+            ops.append(["advance", gap])
+        if deadline is not None and deadline > now:
+            wait = deadline - now + r.choice([-0.125, 0, 0.125, 0.5, 1, 60, 3600])
+            if wait > 0:
+                now += wait
+                ops.append(["advance", wait])
+        ops.append(["filter", ["https", host, path or "/"]])
+        return {"unsafe": False, "t0": T0, "ops": ops, "sweep": True}
+
     def history(self):
         r = self.rng
-        if r.random() < 0.3:
+        x = r.random()
+        if x < 0.3:
             return self.focused()
+        if x < 0.4:
+            return self.refresh()
         self.n = 0
         ops = []
         now = T0
@@ -302,7 +357,7 @@ class Gen:
                 ops.append(["set", u, [self.attrs(now) for _ in range(1 if r.random() < 0.8 else 2)]])
                 self.touch(ops, 0.2)
             elif x < 0.57:
-                dt = r.choice([0, 1, 4, 5, 6, 10, 45, 50, 100])
+                dt = r.choice([0, 1, 4, 5, 6, 10, 45, 50, 100, 0.25, 0.5, 0.875, 4.75, 9.5])
                 now += dt
                 ops.append(["advance", dt])
             elif x < 0.60:
@@ -350,11 +405,17 @@ def hx(s: str) -> str:
 
 
 class FakeTime:
+    """`t` is in ticks; time() is the exact float t / TICKS."""
+
     def __init__(self, t):
         self.t = t
 
     def time(self):
-        return float(self.t)
+        return self.t / TICKS
+
+    @property
+    def seconds(self):
+        return self.t / TICKS
 
     def __getattr__(self, n):
         return getattr(_time, n)
@@ -371,7 +432,7 @@ def run_impl(case, tmpdir):
     from aiohttp._cookie_helpers import parse_set_cookie_headers
 
     ops = expand(case)
-    clock = FakeTime(case["t0"])
+    clock = FakeTime(ticks(case["t0"]))
     real_time = cj.time
     cj.time = clock
     viol = []
@@ -415,7 +476,7 @@ def run_impl(case, tmpdir):
                         exs = "n"
                     else:
                         t = cj.CookieJar._parse_date(ex)
-                        exs = "x" if t is None else "v%d" % t
+                        exs = "x" if t is None else "v%d" % (t * TICKS)
                     ms.append("/".join([hx(name), hx(mo.value), hx(mo["domain"]), hx(mo["path"]),
                                         "1" if mo["secure"] else "0", mas, exs]))
                 if len(ms) != len(op[2]):
@@ -424,8 +485,8 @@ def run_impl(case, tmpdir):
                 for a in op[2]:
                     ref.set(raw_host(h), upath, a, clock.t, idx)
             elif kind == "advance":
-                clock.t += op[1]
-                words.append(f"T:{op[1]}")
+                clock.t += ticks(op[1])
+                words.append(f"T:{ticks(op[1])}")
             elif kind == "clear":
                 jar.clear()
                 ref.clear()
@@ -447,7 +508,7 @@ def run_impl(case, tmpdir):
                 allowed = ref.filter(raw_host(h), rpath, secure_scheme(sch), clock.t)
                 impl_out.append(got)
                 ref_out.append(allowed)
-                queries.append((idx, sch, h, p, clock.t))
+                queries.append((idx, sch, h, p, clock.seconds))
                 words.append(":".join(["F", "1" if secure_scheme(sch) else "0", hx(url.raw_host or ""), hx(url.path)]))
                 for nv in got:
                     if tuple(nv) not in allowed:
@@ -457,16 +518,17 @@ def run_impl(case, tmpdir):
                             why = ref.why_not(c, raw_host(h), rpath, secure_scheme(sch), clock.t)
                             src = ops[c["src"]]
                             a = [x for x in src[2] if x["value"] == nv[1]][0]
-                            diag = {"kind": why, "cookie": {k: c[k] for k in ("name", "domain", "path", "host_only", "secure", "expiry")},
-                                    "attrs": a, "set_by": src[1], "now": clock.t}
+                            shown = {k: c[k] for k in ("name", "domain", "path", "host_only", "secure")}
+                            shown["expiry"] = None if c["expiry"] is None else c["expiry"] / TICKS
+                            diag = {"kind": why, "cookie": shown, "attrs": a, "set_by": src[1], "now": clock.seconds}
                         else:
-                            diag = {"kind": "not_in_reference_store", "why": ref.gone.get(nv[1], "unknown value"), "now": clock.t}
+                            diag = {"kind": "not_in_reference_store", "why": ref.gone.get(nv[1], "unknown value"), "now": clock.seconds}
                         viol.append((idx, list(nv), diag,
-                                     f"{sch}://{h}{p} at t={clock.t}: cookie {nv[0]}={nv[1]} attached, but RFC 6265 forbids it "
+                                     f"{sch}://{h}{p} at t={clock.seconds}: cookie {nv[0]}={nv[1]} attached, but RFC 6265 forbids it "
                                      f"({diag['kind']}): {json.dumps(diag, default=str)[:400]}"))
             else:
                 raise ValueError(kind)
-        line = "H %d %d %s" % (1 if case["unsafe"] else 0, case["t0"], " ".join(words))
+        line = "H %d %d %s" % (1 if case["unsafe"] else 0, ticks(case["t0"]), " ".join(words))
         return line, impl_out, ref_out, viol, queries
     finally:
         cj.time = real_time
